@@ -3,7 +3,7 @@
 # confirm the pinned suite passes with it, run every quick check against it (all must exit 0), store under /verif/neutral/.
 set -u
 A="$1"; N="$2"
-OUT=/tmp/seedwork/out4-$A/$N; DEST=/verif/neutral/$A-$N
+OUT=/tmp/seedwork/out${R:-4}-$A/$N; DEST=/verif/neutral/$A-$N
 [ -f "$OUT/patch.diff" ] || { echo "no patch in $OUT"; exit 2; }
 cd /repo && git apply --check "$OUT/patch.diff" || { echo "patch does not apply"; exit 2; }
 git apply "$OUT/patch.diff"
